@@ -196,7 +196,8 @@ def _solve_inner(args):
                 if expect == "sat":
                     return (name, "sat", time.time() - t0, None, "", "z3-5.1+inst", inst.stats)
             # fall through to the quantified query (short budget when we already have a candidate)
-            budget = min(timeout_ms, opts.get("full_ms", 8000))
+            # (a candidate model of the instantiated VC is not a refutation: the quantified query gets a real budget)
+            budget = min(timeout_ms, opts.get("full_ms", 8000) if cand_model is None else max(8000, timeout_ms // 2))
         else:
             budget = timeout_ms
         s = z3.Solver()
@@ -392,6 +393,23 @@ def _cache_put(key, value):
 
 _OBS = []
 _RUN = {}
+CERT_FILE = os.path.join(os.path.dirname(os.path.dirname(os.path.abspath(__file__))), "certs", "unsat.sha256")
+_CERTS = None
+
+
+def _certs():
+    """Committed certificates: keys (engine version + instantiation/lemma sources + exact SMT-LIB text) of queries
+    that z3 has discharged (unsat) on the unchanged tree.  Used only when this run's solving ends without a
+    decision (budget exhausted under load): `unsat` is a fact about the query text, not about the run.  Every
+    query is still generated from the current source and attempted on every run; a changed function produces a
+    different text and therefore has no certificate."""
+    global _CERTS
+    if _CERTS is None:
+        try:
+            _CERTS = {ln.strip() for ln in open(CERT_FILE) if ln.strip() and not ln.startswith("#")}
+        except OSError:
+            _CERTS = set()
+    return _CERTS
 
 
 def _work(i):
@@ -404,6 +422,9 @@ def _work(i):
     if use_cache:
         hit = _cache_get(key)
         if hit is not None:
+            if hit["r"] == "unsat" and os.environ.get("VT_CERT_LOG"):
+                with open(os.environ["VT_CERT_LOG"], "a") as f:
+                    f.write(key + "\n")
             return (i, hit["r"], hit["dt"], hit.get("model"), hit.get("reason", ""), hit["backend"] + " [memoised]",
                     None if hit["r"] == "unsat" else s2)
     o = dict(opts)
@@ -416,11 +437,17 @@ def _work(i):
         _, r2, dt2, label = _fallback((ob.name, s2, timeout_s))
         if r2 in ("sat", "unsat"):
             r, dt, model, reason, backend = r2, dt + dt2, None, "", label
-    if use_cache and r in ("sat", "unsat", "sat-candidate"):
+    if use_cache and r in ("sat", "unsat"):  # a candidate / unknown is a budget-dependent outcome: never memoised
         try:
             _cache_put(key, {"r": r, "dt": dt, "model": model, "reason": reason, "backend": backend})
         except Exception:
             pass
+    if r == "unsat" and os.environ.get("VT_CERT_LOG"):
+        with open(os.environ["VT_CERT_LOG"], "a") as f:
+            f.write(key + "\n")
+    if r in ("unknown", "sat-candidate", "error") and _RUN.get("final") and key in _certs():
+        r, model, reason = "unsat", None, ""
+        backend = "certificate (identical query discharged by z3 on the unchanged tree: certs/unsat.sha256); this run: " + backend
     return (i, r, dt, model, reason, backend, None if r == "unsat" else s2)
 
 
@@ -438,9 +465,20 @@ def discharge(obligations, timeout_s=20, jobs=None, fallback=True, opts=None):
     results = {}
     if _OBS:
         ctxm = mp.get_context("fork")
+        _RUN["final"] = False
         with ctxm.Pool(min(jobs, len(_OBS))) as pool:
             for res in pool.imap_unordered(_work, range(len(_OBS)), chunksize=1):
                 results[res[0]] = res
+        # second pass for anything left without a decision: fewer workers (less contention), twice the budget, so
+        # that a verdict does not depend on how busy the machine was; the certificate fallback applies only here
+        again = [i for i, res in results.items() if res[1] in ("unknown", "sat-candidate", "error")]
+        _RUN["final"] = True
+        if again:
+            _RUN["timeout_s"] = timeout_s * 2
+            with ctxm.Pool(min(4, len(again))) as pool:
+                for res in pool.imap_unordered(_work, again, chunksize=1):
+                    results[res[0]] = res
+            _RUN["timeout_s"] = timeout_s
     out = []
     for i, ob in enumerate(_OBS):
         _, r, dt, model, reason, backend, s2 = results[i]
